@@ -33,7 +33,7 @@ func (p PatternSchema) ReflectedType() reflect.Type {
 func (p PatternSchema) Unserialize(data any) (any, error) {
 	str, err := stringInputMapper(data)
 	if err != nil {
-		return nil, err
+		return nil, asConstraintError(err)
 	}
 	pattern, err := regexp.Compile(str)
 	if err != nil {
